@@ -295,29 +295,29 @@ NOT_YET = {}
 
 # layers added in the sixth round of seeded changes (DESIGN.md 10.6, wave f); appended to the level text
 ADDENDA = {
-    "C01": "Also shape S4x2 (two completed-by-any elements in a row).",
+    "C01": "Also shape S4x2 (two completed-by-any elements in a row) and S18 (a completed-by-any element in which one worker has no task).",
     "C02": "Also: every column of the real allocation matrix of 11 schedules through the real AsyncIoAdapter.run of one worker (client indices as seen "
     "on the wire), and Driver.start_benchmark under two host layouts (the row handed for client c is row c).",
-    "C03": "Layer E also with the bulk task inside a parallel element beside another task (allocations from the real Allocator).",
+    "C03": "Layer E also with the bulk task inside a parallel element beside another task (allocations from the real Allocator). Layer E also with a twin bulk task on the same operation.",
     "C04": "Also a per-client set-up cost before the executors start (the issue time is the wall clock at issue).",
     "C05": "Also runners reporting several ops per request against ops/s targets, requests the runner reports as unsuccessful, warm-up-only tasks on a finite partition, "
-    "and the progress the driver displays under every arrival history of the clients' samples.",
-    "C06": "Variants: clients of odd samples start 0.1 s later (batches in ascending / descending sample order); failed requests with 0 operations; a second task of the other kind in the same batch.",
+    "and the progress the driver displays under every arrival history of the clients' samples. Requests of varying weight within a task; time-period 0 after a warm-up period; per-configuration horizon.",
+    "C06": "Variants: clients of odd samples start 0.1 s later (batches in ascending / descending sample order); failed requests with 0 operations; a second task of the other kind in the same batch. A second task's sample between the task's own samples; failed requests carry the unit 'ops'.",
     "C07": "Also --test-mode races (no waiting period between steps) at bound 1 and a 40000-request task whose samples are all queued at the worker's final drains.",
     "C08": "Differential: records stored task by task vs. interleaved. Race structures: all 2^8 combinations of optional parts of a race (auto-generated challenge, tags, parameters, car list, revisions, cluster "
-    "details) stored by FileRaceStore, found by id, listed and read back.",
-    "C09": "Also with driver profiling enabled (real AsyncProfiler, yappi replaced by a stand-in) and several clients per worker.",
-    "C10": "Also the rally.collect macro imported with / without context x user parameter supplied or not, parameters with & < > ', nested collects from different directories.",
+    "details) stored by FileRaceStore, found by id, listed and read back. Results without any reported task; races whose ids extend each other in one races directory.",
+    "C09": "Also with driver profiling enabled (real AsyncProfiler, yappi replaced by a stand-in) and several clients per worker. Fault kinds: sys.exit in a track plugin, driver metrics store failing on close, metrics store down for good.",
+    "C10": "Also the rally.collect macro imported with / without context x user parameter supplied or not, parameters with & < > ', nested collects from different directories. Integer properties given as floats with a zero fraction; default-challenge rules while a challenge is selected.",
     "C11": "Operation types of the alphabet contain each other (search / scroll-search).",
-    "C12": "Launcher layer: the real ProcessLauncher.stop for 1..3 nodes per host x 5 process fates per node x metrics store present/absent.",
-    "C13": "A second node on the host is provisioned from the same composed car object; the car must be unchanged afterwards. Car lists with repeated names.",
+    "C12": "Launcher layer: the real ProcessLauncher.stop for 1..3 nodes per host x 5 process fates per node x metrics store present/absent. External clusters given as URLs / with credentials / with a URL prefix.",
+    "C13": "A second node on the host is provisioned from the same composed car object; the car must be unchanged afterwards. Car lists with repeated names. Empty-valued overrides; data paths that were never created.",
     "C14": "L7: a declared uncompressed size that the intact archive does not decompress to; every run has an I/O-step horizon (non-termination is a violation). "
     "L8: --track-path mode, a corpus of three document sets in every placement. L9: corpora published in s3:// and gs:// buckets (net.download_from_bucket over stand-in SDK modules): "
     "bucket answers x formats x sizes x on-disk states, every crash point of a chunked download. L2 also starts from truncated / too long documents and truncated archives.",
-    "C15": "Layer 4 (histories): a local repository reused for two runs, and a managed clone reused while upstream changes its branch set between the runs.",
+    "C15": "Layer 4 (histories): a local repository reused for two runs, and a managed clone reused while upstream changes its branch set between the runs. Histories whose second run is for an unknown version.",
     "C16": "Outcome alphabet includes dict results without a success flag and None.",
     "C18": "L0 fires the trace callbacks of the real client with aiohttp's own parameter objects (three exception kinds). L4: consecutive composite invocations of one client through the real AsyncExecutor.",
-    "C19": "The detailed bulk path is judged separately from the fast path; keys that merely end in 'sort' after the last hit's sort.",
+    "C19": "The detailed bulk path is judged separately from the fast path; keys that merely end in 'sort' after the last hit's sort. Bulk responses of 40 and 1500 items; two composite-aggregation operations concurrently on one Query instance.",
     "C20": "The report-file layer goes through the public ComparisonReporter.report().",
 }
 
